@@ -1332,6 +1332,67 @@ _CONSTRUCTORS = {
 np_proxy = NpProxy()
 
 
+def _avg_ranks(xs):
+    """Average ranks (ties share the mean rank); the order relations are
+    decided by forking, so the ranks are concrete numbers on each path."""
+    out = []
+    for i, x in enumerate(xs):
+        less = sum(1 for y in xs if bool(elem_apply(np.less, y, x)))
+        equal = sum(1 for y in xs if bool(elem_apply(np.equal, y, x)))
+        out.append(less + 1 + (equal - 1) / 2.0)
+    return out
+
+
+class _CorrResult(tuple):
+    statistic = property(lambda self: self[0])
+    correlation = property(lambda self: self[0])
+    pvalue = property(lambda self: self[1])
+
+
+def m_spearmanr(a, b=None, **kw):
+    """scipy.stats.spearmanr(a, b): Pearson correlation of the average ranks
+    (NaN when either vector is constant).  p-value not modelled (NaN)."""
+    _used("scipy.stats.spearmanr (Pearson correlation of average ranks)")
+    if b is None or kw:
+        raise Unsupported("spearmanr form")
+    xs, ys = list(to_obj(a).reshape(-1)), list(to_obj(b).reshape(-1))
+    if len(xs) != len(ys):
+        raise ValueError("All inputs to `spearmanr` must be of the same size")
+    if bool(l_any_nan(xs + ys)):
+        return _CorrResult((float("nan"), float("nan")))
+    if len(xs) < 2:
+        return _CorrResult((float("nan"), float("nan")))
+    rx, ry = _avg_ranks(xs), _avg_ranks(ys)
+    c = f_corrcoef(sa(rx), sa(ry))
+    return _CorrResult((to_obj(c)[1, 0], float("nan")))
+
+
+def m_kendalltau(a, b, **kw):
+    """scipy.stats.kendalltau (tau-b)."""
+    _used("scipy.stats.kendalltau (tau-b)")
+    if kw:
+        raise Unsupported("kendalltau options")
+    xs, ys = list(to_obj(a).reshape(-1)), list(to_obj(b).reshape(-1))
+    if bool(l_any_nan(xs + ys)) or len(xs) < 2:
+        return _CorrResult((float("nan"), float("nan")))
+    conc = disc = tx = ty = 0.0
+    for i in builtins_range(len(xs)):
+        for j in builtins_range(i + 1, len(xs)):
+            dx = elem_apply(np.subtract, xs[i], xs[j])
+            dy = elem_apply(np.subtract, ys[i], ys[j])
+            sx = 1 if bool(elem_apply(np.greater, dx, 0)) else (-1 if bool(elem_apply(np.less, dx, 0)) else 0)
+            sy = 1 if bool(elem_apply(np.greater, dy, 0)) else (-1 if bool(elem_apply(np.less, dy, 0)) else 0)
+            conc += 1.0 if sx * sy > 0 else 0.0
+            disc += 1.0 if sx * sy < 0 else 0.0
+            tx += 1.0 if (sx == 0 and sy != 0) else 0.0
+            ty += 1.0 if (sy == 0 and sx != 0) else 0.0
+    den = elem_apply(np.sqrt, elem_apply(np.multiply, conc + disc + tx, conc + disc + ty))
+    return _CorrResult((elem_apply(np.true_divide, conc - disc, den), float("nan")))
+
+
+_SCIPY_MODELS = {"scipy.stats.spearmanr": m_spearmanr, "scipy.stats.kendalltau": m_kendalltau}
+
+
 class ScipyProxy(object):
     """Stands in for the `scipy` global of verif modules: SciPy runs on
     concrete arguments; a call with symbolic arguments is outside the model."""
@@ -1351,6 +1412,8 @@ class ScipyProxy(object):
 
             def wrapper(*args, **kwargs):
                 if has_sym(list(args)) or has_sym(list(kwargs.values())):
+                    if path in _SCIPY_MODELS:
+                        return _SCIPY_MODELS[path](*args, **kwargs)
                     raise Unsupported("%s on symbolic values is not modelled" % path)
                 # object arrays with concrete content go to SciPy as float arrays
                 args = [np.array(a.tolist(), dtype=float) if isinstance(a, SymArray) else a for a in args]
